@@ -118,6 +118,33 @@ pub fn check_pair(a: u64, b: u64, subset_limit: usize) -> CaseResult {
     if ba.iter().fold(0u64, |m, q| m | 1u64 << msq(q)) != a {
         return Err(fail("C18:iter-adaptors", "fold over the iterator does not rebuild the set".into()));
     }
+    // the whole protocol on fresh / partially consumed / exhausted iterators, squares and subsets
+    {
+        let bits = fnv(&[a.to_le_bytes(), b.to_le_bytes()].concat());
+        let model: Vec<Square> = members.iter().map(|&s| lsq(s)).collect();
+        let steps = crate::iterproto::steps_from(bits, model.len());
+        if let Err(e) = crate::iterproto::check_ord(&|| ba.iter(), &model, &steps, true) {
+            return Err(fail("C18:iter-protocol", e));
+        }
+        // subsets of at most eight members of b (so that the model list stays small)
+        let mut small = 0u64;
+        for &s in sb.iter().take(1 + (bits >> 40) as usize % 8) {
+            small |= 1u64 << s;
+        }
+        let mut subs: Vec<BitBoard> = Vec::new();
+        let mut sub = 0u64;
+        loop {
+            subs.push(BitBoard(sub));
+            sub = sub.wrapping_sub(small) & small;
+            if sub == 0 {
+                break;
+            }
+        }
+        let steps = crate::iterproto::steps_from(bits >> 20, subs.len());
+        if let Err(e) = crate::iterproto::check_ord(&|| BitBoard(small).iter_subsets(), &subs, &steps, false) {
+            return Err(fail("C18:subset-protocol", format!("iter_subsets of {:#018x}: {}", small, e)));
+        }
+    }
     // collecting squares builds their set (also with duplicates and any order)
     let collected: BitBoard = sa.iter().rev().chain(sa.iter()).map(|&s| lsq(s)).collect();
     if collected.0 != a {
@@ -217,7 +244,7 @@ pub fn check_conversions() -> Vec<Failure> {
 
 pub fn run(ctx: &Ctx) -> Report {
     let mut rep = Report::new(ctx);
-    rep.rule = "Pairs of 64-bit patterns from a density-varied generator (uniform, sparse, dense, single bits, ranks/files, empty/full; equal, nested, disjoint and complementary pairs). Model: BTreeSet<u8>. Checked: | & ^ - ! and assigning forms, has (all 64 squares), is_subset/is_superset/is_disjoint/is_empty/len, next_square, iteration ascending without repeats with exact len()/size_hint at every step, IntoIterator, the standard adaptors nth (incl. out of range, with the state left behind) / count / last / min / max / step_by / skip / fold, FromIterator (with duplicates, descending order, more than 64 items), flip_ranks/flip_files as involutions mapping (f,r) to (f,7-r)/(7-f,r), iter_subsets (strictly increasing, each a subset, first empty; for masks up to 14 bits all 2^k subsets with last == mask, for larger masks a prefix). Plus From<Square/File/Rank>, File::adjacent and the constants. Non-trivial = both operands non-empty and different; distinct by hash of the pair.".into();
+    rep.rule = "Pairs of 64-bit patterns from a density-varied generator (uniform, sparse, dense, single bits, ranks/files, empty/full; equal, nested, disjoint and complementary pairs). Model: BTreeSet<u8>. Checked: | & ^ - ! and assigning forms, has (all 64 squares), is_subset/is_superset/is_disjoint/is_empty/len, next_square, iteration ascending without repeats with exact len()/size_hint at every step, IntoIterator, the standard adaptors nth (incl. out of range, with the state left behind) / count / last / min / max / step_by / skip / fold, the iterator protocol (count, last, min, max, collect, fold, for_each, nth at and past the end, position, all, skip/step_by, size_hint) on square and subset iterators after a short generated program of next/nth/take steps incl. exhaustion, FromIterator (with duplicates, descending order, more than 64 items), flip_ranks/flip_files as involutions mapping (f,r) to (f,7-r)/(7-f,r), iter_subsets (strictly increasing, each a subset, first empty; for masks up to 14 bits all 2^k subsets with last == mask, for larger masks a prefix). Plus From<Square/File/Rank>, File::adjacent and the constants. Non-trivial = both operands non-empty and different; distinct by hash of the pair.".into();
     rep.assumptions = vec!["BTreeSet model of the 64 squares".into()];
     rep.required_classes = vec!["equal-pair", "nested-pair", "disjoint-pair", "complementary-pair", "subset-enumeration-complete", "subset-enumeration-prefix"];
     let cases = ctx.tier.scale(120_000, 30);
